@@ -1,6 +1,12 @@
 mod c07;
+mod c09;
+mod c11;
 mod util;
 use vkit::{Check, Level};
 fn main() {
-    vkit::main(&[Check { id: "C07", level: Level::Exploration, run: c07::run }]);
+    vkit::main(&[
+        Check { id: "C07", level: Level::Exploration, run: c07::run },
+        Check { id: "C09", level: Level::Exploration, run: c09::run },
+        Check { id: "C11", level: Level::Exploration, run: c11::run },
+    ]);
 }
